@@ -1,10 +1,207 @@
 (* EncodeFacts.v -- facts about the encoder model used by the property theorems. *)
+From Coq Require Import Arith.
 From WaxModel Require Import Base Token Regex Spec Encode.
 
+Ltac same := split; (let H := fresh in intros H; exact H).
+
+Section Facts.
+Variable orbit : char -> list char.
+Notation sem := (sem orbit).
+
 Lemma class_ignores_flags :
-  forall orbit orbit' cap s e neg a w,
-    sem orbit (enc_leaf cap s e (LClass neg a)) w <-> sem orbit' (enc_leaf cap s e (LClass neg a)) w.
+  forall orbit' cap s e neg a w,
+    sem (enc_leaf cap s e (LClass neg a)) w <-> Regex.sem orbit' (enc_leaf cap s e (LClass neg a)) w.
 Proof.
-  intros orbit orbit' cap s e neg a w. unfold enc_leaf, grp, enc_class.
-  destruct (forallb arch_valid a); cbn [sem]; tauto.
+  intros orbit' cap s e neg a w. unfold enc_leaf, grp, enc_class.
+  destruct (forallb arch_valid a); cbn [Regex.sem]; same.
+Qed.
+
+(* ---- iteration of the one-character language [^/] ------------------------------------------- *)
+Lemma iter_nsep_nosep : forall k w, iter_sem (sem RNsep) k w -> nosep w = true.
+Proof.
+  intros k w H. induction H as [|n u v Hu _ IH]; [reflexivity|].
+  cbn [Regex.sem] in Hu. destruct Hu as [c [-> Hc]]. cbn [app nosep forallb].
+  fold (nosep v). rewrite IH. apply N.eqb_neq in Hc. rewrite Hc. reflexivity.
+Qed.
+
+Lemma nosep_iter_nsep : forall w, nosep w = true -> iter_sem (sem RNsep) (length w) w.
+Proof.
+  induction w as [|c w IH]; intros H; cbn [length]; [constructor|].
+  cbn [nosep forallb] in H. apply andb_prop in H. destruct H as [Hc Hw].
+  change (c :: w) with ([c] ++ w). constructor.
+  - cbn [Regex.sem]. exists c. split; [reflexivity|]. apply N.eqb_neq. destruct (c =? SEP); [discriminate|reflexivity].
+  - apply IH. exact Hw.
+Qed.
+
+Lemma zom_sem : forall cap s e lz w, sem (enc_leaf cap s e (LZom lz)) w <-> nosep w = true.
+Proof.
+  intros cap s e lz w. cbn [enc_leaf grp Regex.sem]. split.
+  - intros [k H]. eapply iter_nsep_nosep. exact H.
+  - intros H. exists (length w). apply nosep_iter_nsep. exact H.
+Qed.
+
+Lemma one_sem : forall cap s e w, sem (enc_leaf cap s e LOne) w <-> exists c, w = [c] /\ c <> SEP.
+Proof. intros. cbn [enc_leaf grp Regex.sem]. same. Qed.
+
+Lemma class_sem_nosep :
+  forall cap s e neg a w, sem (enc_leaf cap s e (LClass neg a)) w -> exists c, w = [c] /\ c <> SEP.
+Proof.
+  intros cap s e neg a w. cbn [enc_leaf]. unfold grp, enc_class.
+  destruct (forallb arch_valid a); cbn [Regex.sem]; [|tauto].
+  intros [c [-> Hc]]. exists c. split; [reflexivity|].
+  unfold class_match in Hc. apply andb_prop in Hc. destruct Hc as [Hc _].
+  apply N.eqb_neq. destruct (c =? SEP); [discriminate|reflexivity].
+Qed.
+
+Lemma class_sem :
+  forall cap s e neg a w, forallb arch_valid a = true ->
+    (sem (enc_leaf cap s e (LClass neg a)) w <-> exists c, w = [c] /\ class_match neg a c = true).
+Proof.
+  intros cap s e neg a w Hv. cbn [enc_leaf]. unfold grp, enc_class. rewrite Hv. cbn [Regex.sem]. same.
+Qed.
+
+(* a tree wildcard that is the whole expression matches every text, newlines included *)
+Lemma lone_tree_matches_everything : forall cap w, sem (enc_leaf cap true true (LTree false)) w.
+Proof. intros. cbn. exact I. Qed.
+
+(* ---- alternation lists ------------------------------------------------------------------------ *)
+Lemma sem_ralt_list : forall rs w, rs <> [] -> (sem (ralt_list rs) w <-> exists r, In r rs /\ sem r w).
+Proof.
+  induction rs as [|r rs IH]; intros w Hne; [congruence|].
+  destruct rs as [|r' rs'].
+  - cbn [ralt_list]. split.
+    + intros H. exists r. split; [left; reflexivity|exact H].
+    + intros [r0 [[<-|[]] H]]. exact H.
+  - change (ralt_list (r :: r' :: rs')) with (RAlt r (ralt_list (r' :: rs'))). cbn [Regex.sem].
+    rewrite IH by discriminate. split.
+    + intros [H|[r0 [Hin H]]]; [exists r; split; [left; reflexivity|exact H] | exists r0; split; [right; exact Hin|exact H]].
+    + intros [r0 [[<-|Hin] H]]; [left; exact H | right; exists r0; split; assumption].
+Qed.
+
+(* ---- the grouping mode does not change the language ------------------------------------------------ *)
+Lemma enc_tree_cap : forall cap cap' s e root w, sem (enc_tree cap s e root) w <-> sem (enc_tree cap' s e root) w.
+Proof. intros cap cap' s e root w. destruct s, e, root; cbn; same. Qed.
+
+Lemma enc_leaf_cap : forall cap cap' s e l w, sem (enc_leaf cap s e l) w <-> sem (enc_leaf cap' s e l) w.
+Proof.
+  intros cap cap' s e l w. destruct l; cbn [enc_leaf grp Regex.sem]; try same.
+  apply enc_tree_cap.
+Qed.
+
+Definition ext_eq (f g : bool -> bool -> re) : Prop := forall s e w, sem (f s e) w <-> sem (g s e) w.
+
+Lemma seq_edges_aux_ext :
+  forall fs gs, Forall2 ext_eq fs gs ->
+    forall first s e w, sem (seq_edges_aux first fs s e) w <-> sem (seq_edges_aux first gs s e) w.
+Proof.
+  intros fs gs H. induction H as [|f g fs gs Hfg Hrest IH]; intros first s e w; [tauto|].
+  destruct Hrest as [|f' g' fs' gs' Hfg' Hrest'].
+  - cbn [seq_edges_aux]. apply Hfg.
+  - change (seq_edges_aux first (f :: f' :: fs') s e) with (RCat (f (s && first) false) (seq_edges_aux false (f' :: fs') s e)).
+    change (seq_edges_aux first (g :: g' :: gs') s e) with (RCat (g (s && first) false) (seq_edges_aux false (g' :: gs') s e)).
+    cbn [Regex.sem]. split; intros [u [v [-> [Hu Hv]]]]; exists u, v; (split; [reflexivity|]); split;
+      try (apply Hfg; exact Hu); apply (IH false s e v); exact Hv.
+Qed.
+
+Lemma enc_tok_cap : forall t cap cap', ext_eq (enc_tok cap t) (enc_tok cap' t).
+Proof.
+  induction t as [sp l|sp bs IH|sp ts IH|sp b lo hi IH] using tok_ind'; intros cap cap' s e w.
+  - cbn [enc_tok]. apply enc_leaf_cap.
+  - cbn [enc_tok grp Regex.sem]. same.
+  - cbn [enc_tok]. unfold seq_edges. apply seq_edges_aux_ext.
+    induction IH as [|t ts Ht _ IHts]; cbn [map]; constructor; [|exact IHts].
+    intros s' e' w'. apply Ht.
+  - cbn [enc_tok]. destruct (norm_bounds lo hi) as [lo' hi']. cbn [grp Regex.sem]. same.
+Qed.
+
+(* C07: a combinator built from trees matches exactly the union of what its trees match *)
+Lemma any_is_union :
+  forall sp ts w, ts <> [] ->
+    (sem (encode (TAlt sp ts)) w <-> exists t, In t ts /\ sem (encode t) w).
+Proof.
+  intros sp ts w Hne. unfold encode. cbn [enc_tok grp Regex.sem].
+  rewrite sem_ralt_list by (destruct ts; [congruence|discriminate]).
+  split.
+  - intros [r [Hin Hr]]. apply in_map_iff in Hin. destruct Hin as [t [<- Hin]].
+    exists t. split; [exact Hin|]. cbn [Regex.sem] in Hr. apply (enc_tok_cap t false true true true w). exact Hr.
+  - intros [t [Hin Ht]]. exists (RGroup false (enc_tok false t true true)). split.
+    + apply in_map_iff. exists t. split; [reflexivity|exact Hin].
+    + cbn [Regex.sem]. apply (enc_tok_cap t true false true true w). exact Ht.
+Qed.
+
+End Facts.
+
+(* ---- C04: one capture group per capturing token of the top-level concatenation ---------------------- *)
+Lemma ngroups_ralt_list_zero : forall rs, Forall (fun r => ngroups r = 0%nat) rs -> ngroups (ralt_list rs) = 0%nat.
+Proof.
+  induction rs as [|r rs IH]; intros H; [reflexivity|].
+  inversion H as [|? ? Hr Hrs]; subst. destruct rs as [|r' rs']; [exact Hr|].
+  change (ralt_list (r :: r' :: rs')) with (RAlt r (ralt_list (r' :: rs'))). cbn [ngroups].
+  rewrite Hr, IH by exact Hrs. reflexivity.
+Qed.
+
+Lemma ngroups_seq_edges_aux :
+  forall fs ns, Forall2 (fun f n => forall s e, ngroups (f s e) = n) fs ns ->
+    forall first s e, ngroups (seq_edges_aux first fs s e) = fold_right Nat.add 0%nat ns.
+Proof.
+  intros fs ns H. induction H as [|f n fs ns Hf Hrest IH]; intros first s e; [reflexivity|].
+  destruct Hrest as [|f' n' fs' ns' Hf' Hrest'].
+  - cbn [seq_edges_aux fold_right]. rewrite Hf. apply eq_sym, Nat.add_0_r.
+  - change (seq_edges_aux first (f :: f' :: fs') s e) with (RCat (f (s && first) false) (seq_edges_aux false (f' :: fs') s e)).
+    cbn [ngroups]. rewrite Hf, (IH false s e). reflexivity.
+Qed.
+
+Lemma ngroups_enc_tree : forall cap s e root, ngroups (enc_tree cap s e root) = if cap then 1%nat else 0%nat.
+Proof. intros cap s e root. destruct cap, s, e, root; reflexivity. Qed.
+
+Lemma ngroups_enc_false : forall t s e, ngroups (enc_tok false t s e) = 0%nat.
+Proof.
+  induction t as [sp l|sp bs IH|sp ts IH|sp b lo hi IH] using tok_ind'; intros s e.
+  - cbn [enc_tok]. destruct l; cbn [enc_leaf grp ngroups]; try reflexivity.
+    + unfold enc_class. destruct (forallb arch_valid a); reflexivity.
+    + apply ngroups_enc_tree.
+  - cbn [enc_tok grp ngroups]. apply ngroups_ralt_list_zero.
+    induction IH as [|t ts Ht _ IHts]; cbn [map]; constructor; [|exact IHts].
+    cbn [ngroups]. apply Ht.
+  - cbn [enc_tok]. unfold seq_edges.
+    rewrite (ngroups_seq_edges_aux (map (enc_tok false) ts) (map (fun _ => 0%nat) ts)).
+    + induction ts as [|t ts IHts]; [reflexivity|]. cbn [map fold_right]. apply IHts. inversion IH; assumption.
+    + induction IH as [|t ts Ht _ IHts]; cbn [map]; constructor; [exact Ht|exact IHts].
+  - cbn [enc_tok]. destruct (norm_bounds lo hi) as [lo' hi']. cbn [grp ngroups]. apply IH.
+Qed.
+
+Definition cap_count (t : tok) : nat := if is_capturing t then 1%nat else 0%nat.
+
+Lemma ngroups_enc_true_noncat : forall t s e, is_cat t = false -> ngroups (enc_tok true t s e) = cap_count t.
+Proof.
+  intros t s e Hc. destruct t as [sp l|sp bs|sp ts|sp b lo hi]; [| | discriminate |].
+  - unfold cap_count. cbn [enc_tok is_capturing]. destruct l; cbn [enc_leaf grp ngroups leaf_is_capturing]; try reflexivity.
+    + unfold enc_class. destruct (forallb arch_valid a); reflexivity.
+    + apply ngroups_enc_tree.
+  - unfold cap_count. cbn [enc_tok grp ngroups is_capturing]. rewrite ngroups_ralt_list_zero; [reflexivity|].
+    clear Hc. induction bs as [|b bs IH]; cbn [map]; [constructor|]. constructor; [|exact IH]. cbn [ngroups]. apply ngroups_enc_false.
+  - unfold cap_count. cbn [enc_tok is_capturing]. destruct (norm_bounds lo hi) as [lo' hi']. cbn [grp ngroups].
+    rewrite ngroups_enc_false. reflexivity.
+Qed.
+
+Lemma filter_length_sum : forall (ts : list tok),
+  length (filter is_capturing ts) = fold_right Nat.add 0%nat (map cap_count ts).
+Proof.
+  induction ts as [|t ts IH]; [reflexivity|]. cbn [filter map fold_right]. unfold cap_count at 1.
+  destruct (is_capturing t); cbn [length]; rewrite IH; reflexivity.
+Qed.
+
+(* the top-level concatenation of a parsed expression never contains a concatenation directly *)
+Definition flat_top (t : tok) : Prop := Forall (fun x => is_cat x = false) (concatenation t).
+
+Lemma group_count : forall t, flat_top t -> ngroups (encode t) = length (filter is_capturing (concatenation t)).
+Proof.
+  intros t H. unfold encode. rewrite filter_length_sum. destruct t as [sp l|sp bs|sp ts|sp b lo hi].
+  - cbn [concatenation map fold_right]. rewrite ngroups_enc_true_noncat by reflexivity. apply eq_sym, Nat.add_0_r.
+  - cbn [concatenation map fold_right]. rewrite ngroups_enc_true_noncat by reflexivity. apply eq_sym, Nat.add_0_r.
+  - cbn [concatenation enc_tok]. unfold seq_edges. apply ngroups_seq_edges_aux.
+    unfold flat_top in H. cbn [concatenation] in H.
+    induction H as [|t ts Ht _ IH]; cbn [map]; constructor; [|exact IH].
+    intros s e. apply ngroups_enc_true_noncat. exact Ht.
+  - cbn [concatenation map fold_right]. rewrite ngroups_enc_true_noncat by reflexivity. apply eq_sym, Nat.add_0_r.
 Qed.
